@@ -59,22 +59,24 @@ func (r *BufferReader) Seek(offset int64, whence int) (int64, error) {
 }
 
 func (r *BufferReader) Skip(n int) error {
-	newPos := r.pos + n
-	if newPos < 0 {
+	if n < -r.pos {
 		return errors.New("encoding.BufferReader.Skip: negative position")
 	}
-	if newPos > len(r.buf) {
+	if n > len(r.buf)-r.pos {
 		return errors.New("encoding.BufferReader.Skip: position out of range")
 	}
-	r.pos = newPos
+	r.pos += n
 	return nil
 }
 
 func (r *BufferReader) ReadWire(l int) (Wire, error) {
+	if l < 0 {
+		return nil, ErrBufferOverflow
+	}
 	if r.pos >= len(r.buf) && l > 0 {
 		return nil, io.EOF
 	}
-	if r.pos+l > len(r.buf) {
+	if l > len(r.buf)-r.pos {
 		return nil, io.ErrUnexpectedEOF
 	}
 	p := r.pos
@@ -83,7 +85,10 @@ func (r *BufferReader) ReadWire(l int) (Wire, error) {
 }
 
 func (r *BufferReader) ReadBuf(l int) (Buffer, error) {
-	if r.pos+l > len(r.buf) {
+	if l < 0 {
+		return nil, ErrBufferOverflow
+	}
+	if l > len(r.buf)-r.pos {
 		return nil, io.ErrUnexpectedEOF
 	}
 	p := r.pos
@@ -107,8 +112,9 @@ func (r *BufferReader) Range(start, end int) Wire {
 }
 
 func (r *BufferReader) Delegate(l int) ParseReader {
-	if l < 0 || r.pos+l > len(r.buf) {
-		return NewBufferReader([]byte{})
+	if l < 0 || l > len(r.buf)-r.pos {
+		// nil tells the parser that the declared length does not fit
+		return nil
 	}
 	subBuf := r.buf[r.pos : r.pos+l]
 	r.pos += l
